@@ -1,8 +1,8 @@
 (* C08 — what is reported for a file depends only on that file. *)
 From CPF Require Import Base.Bytes Scan.Cst Scan.Build Scan.BuildFacts Scan.Merge Scan.MergeFacts.
-From CPF Require Import Base.Skel Scan.PoolSkel.
+From CPF Require Import Base.Skel Scan.PoolSkel Scan.SkelSem Scan.SkelSim.
 From CPF.gen Require Import Tables.
-From Coq Require Import Permutation.
+From Coq Require Import List Permutation.
 
 (* the per-file graph is a function of (path, bytes, tree) alone: build_file takes nothing else *)
 (* in the project graph, the entities and links of one file are exactly its own per-file graph,
@@ -42,3 +42,13 @@ Print Assumptions C08_unreadable_dir_hides_only_itself.
 Theorem C08_worker_loop : pool_program = pool_program_modelled.
 Proof. exact pool_program_matches. Qed.
 Print Assumptions C08_worker_loop.
+
+(* ... and under the generic channel semantics of that program (Scan/SkelSem.v, Scan/SkelSim.v) whether a file's
+   graph reaches the collector depends on that file alone: in every finished execution, whatever the scheduler did
+   and whichever OTHER files could not be read or parsed, the graphs merged are those of the files that are
+   themselves readable, each exactly once *)
+Theorem C08_program_failures_isolated : forall (files : list nat) (fails : bytes -> nat -> bool) s,
+  NoDup files -> sreach files fails s -> finished s = true ->
+  NoDup (s_merged s) /\ (forall f, In f (s_merged s) <-> In f files /\ SkelSim.readable fails f = true).
+Proof. exact skel_finished_exactly_once. Qed.
+Print Assumptions C08_program_failures_isolated.
